@@ -102,7 +102,13 @@ func runC42(c *Ctx) {
 		okSrc := false
 		ast.Inspect(hc.Decl.Body, func(n ast.Node) bool {
 			if as, ok := n.(*ast.AssignStmt); ok && len(as.Lhs) == 1 && selField(info, as.Lhs[0]) == ccConfirmed {
-				okSrc = viaInFlight(as.Rhs[0], "Seq")
+				rhs := as.Rhs[0]
+				if id, isId := ast.Unparen(rhs).(*ast.Ident); isId {
+					if def := singleLocalDef(info, hc.Decl, info.ObjectOf(id)); def != nil {
+						rhs = def
+					}
+				}
+				okSrc = viaInFlight(rhs, "Seq")
 			}
 			return true
 		})
